@@ -64,6 +64,9 @@ class CallMixin:
             if name == "__module__":
                 d_ = self.schema.classes.get(v.cls)
                 return [self.val(st, VStr(d_.module or "" if d_ else ""))]
+            if name == "__dict__":
+                # the instance dictionary, only usable through .get(name[, default]) (= getattr restricted to instance attributes)
+                return [self.val(st, VFn("instdict", name="__dict__", self_=v))]
             raise EngineError(f"class {v.cls} has no field or method {name!r} in the schema")
         if isinstance(v, VModule):
             dotted = f"{v.name}.{name}"
@@ -105,6 +108,8 @@ class CallMixin:
             if v.kind == "opaque":
                 nid = z3.IntVal(const_id(f"attr:{name}"))
                 return [self.val(st, VObj(_attr(v.t, nid)))]
+            if v.kind == "instdict" and name == "get":
+                return [self.val(st, VFn("instdict_get", name="get", self_=v.self_))]
             if v.kind == "partial":
                 if name == "func":
                     return [self.val(st, v.extra[0])]
@@ -135,6 +140,12 @@ class CallMixin:
                 st.emit("bind_method", [v, VStr(name), val])
                 return [("next", st, None)]
             if not self.schema.has_field(v.cls, name):
+                if getattr(self, "cur_key", None) and not self.spec:
+                    # the code under verification stores an attribute the class is not declared to have (a cache, a flag): it is outside every
+                    # `modifies` frame, hence a frame violation of the function - reported as such, not as an engine error
+                    self.prove(st, z3.BoolVal(False), f"{self.cur_key}:frame/writes-an-attribute-the-class-does-not-declare:{v.cls}.{name}",
+                               prop=self.prop_of(None))
+                    return [("next", st, None)]
                 raise EngineError(f"write to undeclared field {v.cls}.{name}")
             self.check_guarded_write(v, name, st)
             if isinstance(val, VLoc):
@@ -256,6 +267,21 @@ class CallMixin:
                 if m and m[0] == "src" and self._is_static(m[2]):
                     return self.call_src_method(m, None, args, kwargs, st, node)
                 return self.call_method(args[0], fn.name, args[1:], kwargs, st, node, start_cls=fn.extra)
+            if k == "instdict_get":
+                # obj.__dict__.get(name[, default]): a declared field is always set by the constructor; any other name may or may not have been stored
+                # on the instance (uninterpreted presence, as getattr with a computed name)
+                nm, dflt = args[0], (args[1] if len(args) > 1 else NONE)
+                ov = fn.self_
+                if isinstance(nm, VStr) and z3.is_string_value(z3.simplify(nm.t)) and isinstance(ov, VRef) and self.schema.has_field(ov.cls, self._const_str(nm)):
+                    return self.get_attr(ov, self._const_str(nm), st, node)
+                f_ = z3.Function("obj_getattr_dyn", ty.IntS, ty.StrS, ty.IntS)
+                h_ = z3.Function("obj_hasattr_dyn", ty.IntS, ty.StrS, ty.BoolS)
+                self.abstractions.add("obj.__dict__.get(name) for an undeclared name: uninterpreted presence / value")
+                ot = to_obj_term(ov)
+                out = []
+                for b, s_ in self.branch(st, h_(ot, nm.t)):
+                    out.append(self.val(s_, VObj(f_(ot, nm.t)) if b else dflt))
+                return out
             if k == "ext":
                 return self.apply_contract(self.schema.contracts[fn.name], None, args, kwargs, st, node)
             if k == "closure":
